@@ -206,7 +206,7 @@ def run(ctx):
         if thorough:
             t = C.grid_size(4, 0, 2, NONBURES, nvecsb=81)
             r = run_grid(ctx, pool, 'pairs4', 4, t, voff=0, vspan=2, vecsb='VecsBSub', movevecs='MoveVecsSub',
-                         methods=NONBURES, moves=('perm', 'swap'), emitmod=4, moveemitmod=1)
+                         methods=NONBURES, moves=('perm', 'swap'), emitmod=4, moveemitmod=4)
             ctx.exhaustive = False     # n_cond 4: first vector exhaustive, second from a 1/9 subset; replay is a 1/4 sample
         else:
             t = C.grid_size(4, 0, 1, NONBURES)
